@@ -166,6 +166,7 @@ type DevCfg struct {
 	Name  string
 	Addr  netip.AddrPort // zero = not set
 	Proto string
+	TZ    *time.Location // the controller's configured time zone (nil = UTC); informational: results do not depend on it
 }
 
 type Cfg struct {
@@ -191,7 +192,11 @@ func (c Cfg) coq() string {
 func (c Cfg) client(f *fakeDriver) uhppote.IUHPPOTE {
 	devs := []uhppote.Device{}
 	for _, d := range c.Devices {
-		devs = append(devs, uhppote.Device{Name: d.Name, DeviceID: d.ID, Address: types.ControllerAddr{AddrPort: d.Addr}, Doors: []string{"a", "b", "c", "d"}, TimeZone: time.UTC, Protocol: d.Proto})
+		tz := d.TZ
+		if tz == nil {
+			tz = time.UTC
+		}
+		devs = append(devs, uhppote.Device{Name: d.Name, DeviceID: d.ID, Address: types.ControllerAddr{AddrPort: d.Addr}, Doors: []string{"a", "b", "c", "d"}, TimeZone: tz, Protocol: d.Proto})
 	}
 	bind := types.BindAddrFrom(netip.IPv4Unspecified(), 0)
 	bc := types.BroadcastAddr{AddrPort: c.Bcast}
